@@ -635,8 +635,8 @@ def dmg_view(b):
 def dmg_regions(b):
     k, so, sl = dmg_layout(b)
     sl = min(sl, k - so)
-    r = [(k, k + 216, "koly-fields"), (k + 216, k + 232, "koly-xml-offset-length"), (k + 232, k + 296, "koly-reserved1"), (k + 296, k + 312, "koly-codesign-offset-length"),
-         (k + 312, k + 352, "koly-reserved2"), (k + 352, k + 488, "koly-master-checksum"), (k + 488, k + 500, "koly-variant-sectors"), (k + 500, k + 512, "koly-reserved3")]
+    r = [(k, k + 216, "koly-fields"), (k + 216, k + 232, "koly-xml-offset-length"), (k + 232, k + 296, "koly-reserved"), (k + 296, k + 312, "koly-codesign-offset-length"),
+         (k + 312, k + 352, "koly-reserved"), (k + 352, k + 488, "koly-master-checksum"), (k + 488, k + 500, "koly-variant-sectors"), (k + 500, k + 512, "koly-reserved")]
     length, blobs = superblob(b, so, sl)
     r.append((so, so + 12 + 8 * len(blobs), "superblob-index"))
     for typ, bm, s, e in blobs:
